@@ -728,6 +728,12 @@ fn gen_rq(r: &mut Rng, lo: i64, hi: i64) -> String {
 /// a filter over one single-field index (rarely over an index name that does not exist)
 fn gen_q(r: &mut Rng, g: &GenCfg) -> String {
     if r.chance(1, 25) { return format!("q 30 {}", gen_rq(r, 0, 3)); }
+    // a multi-field index has byte keys: an integer value does not convert (error), a query without values is answered
+    if r.chance(1, 14) {
+        let name = if r.chance(1, 2) { "a-b" } else { "b-tags" };
+        let q = match r.below(4) { 0 => "in:-".to_string(), 1 => "not(in:-)".to_string(), 2 => format!("or(in:-|{})", gen_rq(r, 0, 3).replace(['(', ')', '|'], "_").split('_').next().map(|_| "eq:1").unwrap_or("eq:1")), _ => gen_rq(r, 0, 3) };
+        return format!("q {} {q}", bt_rank(name));
+    }
     let singles: Vec<&(&str, &[usize])> = BT.iter().filter(|b| b.1.len() == 1).collect();
     let (name, fs) = **r.pick(&singles);
     // probe values around the values the generator stores in that field
